@@ -60,7 +60,7 @@ CHECKS = {
         "stages": [
             st("main", "rel", [250, 6000], [25, 400]),
             st("dbgassert", "relda", [60, 1000], [20, 200], shards=4),
-            st("tsan", "tsan", [40, 800], [30, 300], shards=4),
+            st("tsan", "tsan", [40, 800], [30, 300], shards=4, concurrent=True),
             st("miri", "miri", [0, 1], [0, 1500], thorough_only=True, shards=1, watchdog_factor=2,
                env={"MIRIFLAGS_EXTRA": "-Zmiri-many-seeds=0..8"}),
         ],
@@ -147,8 +147,8 @@ CHECKS = {
             st("main", "rel", [600, 15000], [30, 400]),
             st("avx2", "avx2", [600, 15000], [30, 400]),
             st("dbgassert", "relda", [100, 2000], [20, 200], shards=8),
-            st("miri", "miri", [25, 200], [240, 900], shards=4, watchdog_factor=3),
-            st("miri-avx2", "miri-avx2", [25, 200], [240, 900], shards=4, watchdog_factor=3),
+            st("miri", "miri", [25, 200], [240, 900], shards=4, watchdog_factor=3, concurrent=True),
+            st("miri-avx2", "miri-avx2", [25, 200], [240, 900], shards=4, watchdog_factor=3, concurrent=True),
             st("valgrind", "avx2", [0, 60], [0, 600], thorough_only=True, shards=8, watchdog_factor=6,
                wrap=["valgrind", "--error-exitcode=97", "--quiet"]),
             st("asan", "asan", [0, 600], [0, 300], thorough_only=True, shards=8),
@@ -212,7 +212,7 @@ CHECKS = {
                 "the recount, the listed order is accepted by map_connection_ids_from_iter and the mapped dictionary tokenizes identically. "
                 "Distinct = hash of (dictionary, history).",
         "required_buckets": ["empty_line_in_history", "empty_first_line", "no_line_at_all", "repeated_line", "trailing_spaces_with_ignore_space",
-                             "frequency_ties", "reorder_output_accepted_by_map", "cost_eval_events_equal_recount"],
+                             "frequency_ties", "reorder_output_accepted_by_map", "cost_eval_events_equal_recount", "large_id_space_with_ties"],
         "assumptions": ["with ignore_space the histories use dictionaries meeting C12's precondition (where the skip rule is unambiguous)"],
     },
     "C10": {
@@ -250,7 +250,8 @@ CHECKS = {
                 "of cost in weight, user rows trained iff 0,0,0; the files must compile and cover the training sentences. "
                 "Distinct = hash of the emitted files.",
         "required_buckets": ["training_succeeded", "with_user_lexicon", "user_row_with_trained_parameters", "user_row_copied_unchanged",
-                             "non_zero_weights", "all_zero_weight_model", "costs_of_both_signs", "non_square_matrix", "emitted_files_compile"],
+                             "non_zero_weights", "all_zero_weight_model", "costs_of_both_signs", "non_square_matrix", "emitted_files_compile",
+                             "exported_once_before_user_lexicon"],
         "assumptions": ["the merge of feature weights into connection classes is rucrf's and is trusted here (cross-examined by C16 and C18)"],
     },
     "C15": {
@@ -308,7 +309,7 @@ CHECKS = {
                 "and every cell of the id's row in bigram.left/right is '*' or the word's expansion. Distinct = hash of inputs / files.",
         "required_buckets": ["optional_reference_suppressed_template", "string_seen_again_same_id", "short_feature_row", "training_succeeded",
                              "words_sharing_a_connection_class", "listed_feature_equals_expansion", "feature_dropped_by_training_shown_as_star",
-                             "with_left_or_right_rewrite_rules"],
+                             "with_left_or_right_rewrite_rules", "model_reloaded_before_generation", "user_word_with_trained_ids_checked"],
         "assumptions": ["user-lexicon words are excluded from the `equal tuples share an id` clause (features pruned by training are re-interned for them)"],
     },
     "C19": {
